@@ -140,7 +140,14 @@ def A_repeatable():
       if sorted(vals) != ['buf', 'first', 'iter']:
         raise Unsupported('__init__: attributes set ' + str(sorted(vals)))
       return f'mk_rit {vals["first"]} {vals["iter"]} {vals["buf"]}'
+    it = _method(tree, 'RepeatableIterator', '__iter__')
+    ib2 = _nodoc(it.body)
+    if [a.arg for a in it.args.args] != ['self'] or len(ib2) != 1 or \
+        not _same_ast(ib2[0], ast.parse('def f():\n  return self\n').body[0].body[0]):
+      raise Unsupported('RepeatableIterator.__iter__ is not `return self`')
     return '\n'.join([
+        '(* __iter__: return self *)',
+        'Definition rit_iter_gen (s : rit (A:=A)) : rit (A:=A) := s.',
         '(* container = any(isinstance(base, c) for c in (list, tuple, dict, str, bytes)); iter(base) = base *)',
         'Definition rit_init_gen (container : bool) (base : list A) : rit (A:=A) :=',
         f'  if container then {branch(ib[0].body)} else {branch(ib[0].orelse)}.',
